@@ -598,6 +598,9 @@ def operand(kind, label):
     if label.startswith('l'):
         pmode, shapes = SOURCES[kind]
         return pmode, M.ml_variant(shapes[int(label[1:])])
+    if label.startswith('t'):
+        pmode, shapes = SOURCES[kind]
+        return pmode, M.trivia_variant(shapes[int(label[1:])])
     tbl = SOURCES if label.startswith('s') or label.isdigit() else xshapes()
     pmode, shapes = tbl[kind]
     return pmode, shapes[int(label.lstrip('sx'))]
@@ -612,6 +615,8 @@ def mb_pairs(full, coercing):
         ms = [(f'm{i}', M.mb_variant(x)) for i, x in enumerate(shapes)]
         # `l<i>`: the shape broken over two physical lines at its first operator outside any bracket (valid only where enclosed)
         ms += [(f'l{i}', M.ml_variant(x)) for i, x in enumerate(shapes)]
+        # `t<i>`: the shape with a leading comment line, a trailing line comment and a trailing comment line around it
+        ms += [(f't{i}', M.trivia_variant(x)) for i, x in enumerate(shapes)]
         ms = [(lab, x) for lab, x in ms if x is not None]
         for t in targets:
             if t in NOT_SWEPT or (not full and (kind, t) not in coercing):
@@ -735,8 +740,13 @@ def _eval_put(arg):
         res['skip'] = 'operand already has the kind'
         return res
     mk = (lambda: FST(src, pmode)) if route == 'fst' else (lambda: M.pure(FST(src, pmode).a))
+    conv_ok = False
     try:
         conv = FST(mk(), target)
+        try:
+            conv_ok = _dump(FST(conv.src, target).a) == _dump(conv.a)     # the converted node is valid on its own
+        except Exception:
+            pass
     except Exception as e:
         conv = None
         res['explicit'] = 'refuses:' + type(e).__name__
@@ -766,7 +776,17 @@ def _eval_put(arg):
             elif ast.dump(reff.a, include_attributes=True) != ast.dump(c1.a, include_attributes=True):
                 res['fail_pos'] = f'container after the coercing put, {c1.src!r}, has other positions than a parse of its source'
         except Exception as e:
-            res['fail_parse'] = f'container source after the coercing put does not parse: {c1.src!r} ({type(e).__name__})'
+            broken2 = False
+            try:
+                FST(c2.src, cmode)
+            except Exception:
+                broken2 = True
+            if conv_ok and broken2:
+                # putting the VALID, explicitly converted node breaks the container in the same way: the put is at fault whatever the
+                # operand's kind (e.g. a trailing comment of an `arguments` operand swallows `):`), not the coercion -> C01's business
+                res['put_broken_regardless'] = True
+            else:
+                res['fail_parse'] = f'container source after the coercing put does not parse: {c1.src!r} ({type(e).__name__})'
     return res
 
 
@@ -795,6 +815,9 @@ def put_jobs(full, rng):
                 lsrc = M.ml_variant(src)
                 if lsrc is not None:
                     jobs.append((name, csrc, cmode, how, target, kind, f'l{si}', pmode, lsrc, 'fst'))
+                tsrc = M.trivia_variant(src)        # operand with trivia outside its own location: every put strips it
+                if tsrc is not None:
+                    jobs.append((name, csrc, cmode, how, target, kind, f't{si}', pmode, tsrc, 'fst'))
     return jobs
 
 
@@ -806,6 +829,8 @@ def _report_puts(ctx, results):
         n += 1
         ctx.count(('put', r['slot'], r['kind'], r['si'], r['route']), r.get('implicit') == 'ok')
         ctx.tally('put_coerce', f'{r.get("implicit")}/{r.get("explicit")}')
+        if r.get('put_broken_regardless'):
+            ctx.tally('put_breaks_container_also_with_the_valid_converted_node(not C19)', r['slot'])
         if 'fail' in r:
             ctx.fail(f'C19|put:{r["slot"]}<-{r["kind"]}|{r["si"]}/{r["route"]}|put!=explicit', r['fail'],
                      {'put_slot': r['slot'], 'kind': r['kind'], 'si': r['si'], 'route': r['route'], 'src': r['src'], 'pmode': r['pmode']})
